@@ -122,19 +122,8 @@ def all_getters(o):
     return res
 
 
-def run_case(case, name):
-    from pydsol.core.experiment import SingleReplication
-    from pydsol.core.interfaces import SimulatorInterface, ReplicationInterface
-    from pydsol.core.model import DSOLModel
-    from pydsol.core.pubsub import EventListener, EventProducer, EventType
-    from pydsol.core.simulator import (DEVSSimulatorFloat, DEVSSimulatorInt, DEVSSimulatorDuration,
-                                       ErrorStrategy)
-    from pydsol.core.streams import MersenneTwister
-    from pydsol.core import statistics as S
+def make_to_time(ck):
     from pydsol.core.units import Duration
-    from pydsol.core.utils import DSOLError
-
-    ck = case["clock"]
 
     def to_time(q):
         if q == "nan":
@@ -149,6 +138,44 @@ def run_case(case, name):
         if ck == "durmin":
             return Duration(float(q // 240), "min") if q % 240 == 0 else Duration(q / 4.0, "s")
         raise ValueError(ck)
+    return to_time
+
+
+class Forwarder:
+    """target of SimEvent objects that are built before the model object exists"""
+    model = None
+
+    def handle(self, **kw):
+        self.model.handle(**kw)
+
+
+def build_early(case):
+    """SimEvent objects of model 0 marked "early": built by the caller before anything else happens in the process"""
+    from pydsol.core.simevent import SimEvent
+    to_time = make_to_time(case["clock"])
+    fwd = Forwarder()
+    evs = {}
+    for j, pe in enumerate(case["models"][0].get("pre", [])):
+        if len(pe) > 3 and pe[3] == "early":
+            evs[j] = SimEvent(to_time(pe[0]), fwd, "handle", pe[1], h=pe[2], k=None, pre=j)
+    return {"fwd": fwd, "events": evs}
+
+
+def run_case(case, name, early=None):
+    from pydsol.core.experiment import SingleReplication
+    from pydsol.core.interfaces import SimulatorInterface, ReplicationInterface
+    from pydsol.core.model import DSOLModel
+    from pydsol.core.pubsub import EventListener, EventProducer, EventType
+    from pydsol.core.simulator import (DEVSSimulatorFloat, DEVSSimulatorInt, DEVSSimulatorDuration,
+                                       ErrorStrategy)
+    from pydsol.core.streams import MersenneTwister
+    from pydsol.core.simevent import SimEvent
+    from pydsol.core import statistics as S
+    from pydsol.core.units import Duration
+    from pydsol.core.utils import DSOLError
+
+    ck = case["clock"]
+    to_time = make_to_time(ck)
 
     def to_q(t):
         x = float(t) * 4
@@ -274,6 +301,17 @@ def run_case(case, name):
             self.all_stats = []            # every statistic object ever built by this model: (generation, object)
             self.generation = 0
             self.streams = {}
+            # SimEvent objects built before initialize() and handed to schedule_event(event) later
+            self.pre = {}
+            self.pre_rank = {}
+            self.pre_done = set()
+            for j, pe in enumerate(spec.get("pre", [])):
+                if early is not None and mi == 0 and j in early["events"]:
+                    self.pre[j] = early["events"][j]
+                else:
+                    self.pre[j] = SimEvent(to_time(pe[0]), self, "handle", pe[1], h=pe[2], k=None, pre=j)
+            if early is not None and mi == 0:
+                early["fwd"].model = self
             if spec.get("stream_mode", "new") == "setseed":
                 self.streams = {nm: MersenneTwister(sd) for nm, sd in spec.get("streams", [])}
 
@@ -282,6 +320,8 @@ def run_case(case, name):
             self.created = []
             self.generation += 1
             state["serial"] = 0
+            self.pre_rank = {}
+            self.pre_done = set()
             if spec.get("stream_mode", "new") == "setseed":
                 for nm, sd in spec.get("streams", []):
                     self.streams[nm].set_seed(sd)
@@ -305,7 +345,9 @@ def run_case(case, name):
                 self.all_stats.append((self.generation, key, kind, o))
             self.interp(spec["prog"][0])
 
-        def handle(self, h, k):
+        def handle(self, h, k, pre=None):
+            if pre is not None:
+                k = self.pre_rank.get(pre, -1 - pre)
             rec["trace"].append([k, to_q(sim.simulator_time)])
             rec["log"].append(["exec", k, to_q(sim.simulator_time)])
             i = state["exec_in_repl"]
@@ -349,6 +391,21 @@ def run_case(case, name):
                         rec["outs"].append("exc:" + type(exc).__name__)
                     entry[3] = rec["outs"][-1]
                     entry[5] = sim.eventlist().size()
+                elif kind == "schedpre":
+                    j = a[1]
+                    if j in self.pre and j not in self.pre_done:      # each pre-built event at most once per replication
+                        self.pre_done.add(j)
+                        e = self.pre[j]
+                        try:
+                            sim.schedule_event(e)
+                            self.pre_rank[j] = len(self.created)
+                            self.created.append(e)
+                            rec["outs"].append("acc")
+                        except DSOLError:
+                            rec["outs"].append("ref")
+                        except Exception as exc:  # noqa
+                            rec["outs"].append("exc:" + type(exc).__name__)
+                        rec["log"].append(["schedpre", j, to_q(sim.simulator_time), rec["outs"][-1]])
                 elif kind == "cancel":
                     if a[1] < len(self.created):
                         was = sim.eventlist().contains(self.created[a[1]])
